@@ -579,14 +579,14 @@ func init() {
 		ID:    "C06",
 		Level: "exploration",
 		Rule: "valid: foreign UBJSON draft-12 values (all scalar markers incl. C and H, string/key/count lengths with a randomly chosen integer marker i/U/I/l/L able to hold them, plain / counted / typed-and-counted arrays and objects " +
-			"of every element type incl. containers of containers, no-ops between elements of plain arrays, empty containers and strings, nesting <= 8); directed: optimized containers alternating with scalar siblings, every length 0..300 with each " +
+			"of every element type incl. containers of containers, no-ops in value position of plain and counted containers, empty containers and strings, nesting <= 8); directed: optimized containers alternating with scalar siblings, every length 0..300 with each " +
 			"of the five length markers for strings and keys, deep typed containers. Oracle: recorded value == generator's value == refubj value (H as its decimal string, C as its byte). distinct_nontrivial = distinct documents.",
 		Assumptions: []string{
-			"no-ops inside counted/typed containers, before object keys and in place of object values are spec-ambiguous and not generated",
+			"no-ops are generated wherever a value marker may stand (array elements, object field values, between top-level values); no-ops before object keys or inside typed containers are not valid and not generated",
 			"the no-op marker as element type of a typed container is not generated (the parser refuses it)",
 		},
 		Suites: []*run.Suite{
-			{Name: "valid", N: tierN(150000, 6000000), Case: c06Valid, Require: []string{"values_equal_to_reference", "feature_typed", "feature_counted", "feature_typed-container-of-containers", "feature_highprec", "feature_char", "feature_noop-in-container"}},
+			{Name: "valid", N: tierN(150000, 6000000), Case: c06Valid, Require: []string{"values_equal_to_reference", "feature_typed", "feature_counted", "feature_typed-container-of-containers", "feature_highprec", "feature_char", "feature_noop-in-container", "feature_noop-in-counted", "feature_noop-in-object"}},
 			{Name: "directed", N: tierN(6000, 60000), Case: c06Directed, Require: []string{"values_equal_to_reference"}},
 		},
 	})
